@@ -57,7 +57,7 @@ class AntennaDriver:
         if self.noisy:
             # for a system the front end doubles the noise: rms 8 puts the noise alone at 1.5 sigma of the threshold after the
             # front end (it triggers some windows by itself) and at 3 sigma before it (hardly ever) -- is_hit_mc_truth can tell
-            kw.update(freq_range=(0.05, 0.4), noise_rms=(8.0 if self.kind == 'system' else 4.0), unique_noise_waveforms=3)
+            kw.update(freq_range=(0.05, 0.4), noise_rms=(8.0 if self.kind == 'system' else 16.0), unique_noise_waveforms=3)
         ant = ThrAntenna(**kw)
         if self.kind == 'system':
             self.obj = (DelaySystemLead if self.lead else DelaySystem)(ant)
@@ -174,6 +174,13 @@ class AntennaDriver:
                     raise Divergence('is_hit_during(%s)' % list(t), last['trig'], got)
             else:
                 w = o.full_waveform(t)
+                if self.noisy and self.kind == 'system' and len(st['sigs']) == 0:
+                    # without signals the waveform of a system over a window is its noise over that window -- through the same
+                    # front end, with the same lead-in
+                    nz = o.make_noise(t)
+                    if not np.allclose(np.asarray(w.values, dtype=float), np.asarray(nz.values, dtype=float), rtol=0, atol=1e-9):
+                        raise Divergence('system without signals: full_waveform(%d,%d,step %d) vs make_noise over the same window' % (
+                            last['t0'], last['n'], last['st']), list(map(float, nz.values)), list(map(float, w.values)))
                 self.check_wave('full_waveform(%d,%d,step %d)' % (last['t0'], last['n'], last['st']), w, last['t0'],
                                 [float(x) for x in last['res']], last['gen'], st=last['st'])
         elif op == 'MakeNoise':
